@@ -20,7 +20,7 @@ BUDGET = {"quick": 480, "thorough": 900}
 CLASSES = ["RF24", "FakeBLE", "RF24Network", "RF24NetworkRoutingOnly", "RF24Mesh", "RF24MeshNoMaster"]
 
 RF24_OPS = [o for o in __import__("checks.c03", fromlist=["FULL"]).FULL
-            if o[0] not in ("enter", "exit", "reenter", "start_carrier_wave", "stop_carrier_wave",
+            if o[0] not in ("enter", "exit", "exit_exc", "reenter", "start_carrier_wave", "stop_carrier_wave",
                             "get_payload_length", "get_auto_ack", "get_dynamic_payloads", "address")]
 BLE_OPS = [["channel", 2], ["channel", 26], ["channel", 80], ["channel", 50], ["pa_level", -12],
            ["pa_level", -18], ["payload_length", 20], ["payload_length", 32],
@@ -202,7 +202,10 @@ def run_case(ctx, case):
                 est[nested[0]] = mask(radio.snapshot()["cfg"])
                 o2.__exit__(None, None, None)
                 ctx.count("nested_blocks")
-            o.__exit__(None, None, None)
+            if (bi + case["seed"]) % 4 == 0:
+                o.__exit__(ValueError, ValueError("raised inside the block"), None)  # left by an exception
+            else:
+                o.__exit__(None, None, None)
             ctx.clause("exit_state")
             if radio.r[0] & 2 or radio.ce:
                 ctx.violation("exit/%s" % cls, "after __exit__: PWR_UP=%d CE=%s"
